@@ -186,6 +186,25 @@ pub fn eval_history(env: &Env, ops: &[Op], pid: &str) -> (String, Option<(String
                 if let Err(e) = prefix_stable(&snap_before, &after) {
                     fail.get_or_insert(("prefix-stability".into(), e));
                 }
+                // the same on the portable side: convert the state before and the state after
+                let mut rb = Registry::new();
+                for o in &ops[..k] {
+                    apply(env, &mut rb, o);
+                }
+                let pb: PortableRegistry = rb.into();
+                let mut ra = Registry::new();
+                for o in ops {
+                    apply(env, &mut ra, o);
+                }
+                let pa: PortableRegistry = ra.into();
+                if pa.types.len() < pb.types.len() || pb.types.iter().zip(&pa.types).any(|(x, y)| x != y) {
+                    fail.get_or_insert(("portable-prefix-stability".into(), "PortableRegistry::from(state before) is not an entry-for-entry prefix of PortableRegistry::from(state after)".into()));
+                }
+                for (_, id) in &all_pairs {
+                    if pb.resolve(*id) != pa.resolve(*id) {
+                        fail.get_or_insert(("handed-out-id-changed".into(), format!("id {id} handed out earlier resolved to {:?} before this operation and to {:?} after it", pb.resolve(*id).map(|t| t.path.segments.join("::")), pa.resolve(*id).map(|t| t.path.segments.join("::")))));
+                    }
+                }
             }
             if pid == "C05" {
                 // (iii) re-registering something already present is a no-op returning the old id
@@ -414,4 +433,114 @@ pub fn replay_case(pid: &str, case: &Value) -> Option<(String, String)> {
     let ops: Vec<Op> = case["ops"].as_array()?.iter().map(|s| env.parse(s.as_str().unwrap()).expect("known op label")).collect();
     let (_, fail) = eval_history(env, &ops, pid);
     fail
+}
+
+
+/// C11 permutation oracle over U1: every order of a root set gives the same registry up to renaming
+pub fn perm_check(env: &Env, set: &[u16]) -> Option<(String, String, Vec<Op>)> {
+    let mut canon: Option<((Vec<vcommon::refscale::PType>, usize), Vec<u16>)> = None;
+    let mut perm: Vec<usize> = (0..set.len()).collect();
+    loop {
+        let order: Vec<u16> = perm.iter().map(|i| set[*i]).collect();
+        let ops: Vec<Op> = order.iter().map(|i| Op::Reg(*i)).collect();
+        let mut reg = Registry::new();
+        let mut ids = vec![0u32; set.len()];
+        for (k, i) in perm.iter().enumerate() {
+            ids[*i] = reg.register_type(&env.u[set[*i] as usize].meta).id;
+            let _ = k;
+        }
+        let portable: PortableRegistry = reg.into();
+        if ids.iter().any(|i| *i as usize >= portable.types.len()) {
+            return Some(("perm-dangling".into(), "a returned id does not resolve".into(), ops));
+        }
+        let c = (vcommon::refs::canonical_from(&portable, &ids), portable.types.len());
+        match &canon {
+            None => canon = Some((c, order)),
+            Some((c0, o0)) => {
+                if *c0 != c {
+                    let l = |o: &Vec<u16>| o.iter().map(|i| env.u[*i as usize].label).collect::<Vec<_>>();
+                    return Some(("permutation-differs".into(), format!("registering {:?} and registering {:?} give registries that differ beyond a renaming of ids", l(o0), l(&order)), ops));
+                }
+            }
+        }
+        if !next_perm(&mut perm) {
+            break;
+        }
+    }
+    None
+}
+
+fn next_perm(p: &mut [usize]) -> bool {
+    if p.len() < 2 {
+        return false;
+    }
+    let mut i = p.len() - 1;
+    while i > 0 && p[i - 1] >= p[i] {
+        i -= 1;
+    }
+    if i == 0 {
+        return false;
+    }
+    let mut j = p.len() - 1;
+    while p[j] <= p[i - 1] {
+        j -= 1;
+    }
+    p.swap(i - 1, j);
+    p[i..].reverse();
+    true
+}
+
+/// all root pairs over the full universe, all 3-subsets (quick) and 4-subsets (thorough) over the core
+pub fn explore_perms(env: &'static Env, thorough: bool) -> (u64, Vec<Violation>) {
+    use rayon::prelude::*;
+    let n = env.u.len() as u16;
+    let core: Vec<u16> = (0..n).filter(|i| env.u[*i as usize].core).collect();
+    let mut sets: Vec<Vec<u16>> = vec![];
+    for a in 0..n {
+        for b in a + 1..n {
+            sets.push(vec![a, b]);
+        }
+    }
+    for (i, a) in core.iter().enumerate() {
+        for (j, b) in core.iter().enumerate().skip(i + 1) {
+            for (k, c) in core.iter().enumerate().skip(j + 1) {
+                sets.push(vec![*a, *b, *c]);
+                if thorough {
+                    for d in core.iter().skip(k + 1) {
+                        sets.push(vec![*a, *b, *c, *d]);
+                    }
+                }
+            }
+        }
+    }
+    if thorough {
+        // all triples over the full universe
+        for a in 0..n {
+            for b in a + 1..n {
+                for c in b + 1..n {
+                    sets.push(vec![a, b, c]);
+                }
+            }
+        }
+    }
+    let v: Vec<Violation> = sets
+        .par_iter()
+        .filter_map(|s| {
+            let r = catch(std::panic::AssertUnwindSafe(|| perm_check(env, s)));
+            let f = match r {
+                Ok(f) => f,
+                Err(p) => Some(("panic".to_string(), format!("panicked: {p}"), s.iter().map(|i| Op::Reg(*i)).collect())),
+            };
+            f.map(|(key, msg, ops)| Violation { key, msg, case: json!({"kind": "u1-perm", "ops": env.labels(&ops)}) })
+        })
+        .collect();
+    (sets.len() as u64, v)
+}
+
+pub fn replay_perm(case: &Value) -> Option<(String, String)> {
+    let env = env_full();
+    let set: Vec<u16> = case["ops"].as_array()?.iter().map(|s| match env.parse(s.as_str().unwrap()) { Some(Op::Reg(i)) => i, _ => panic!("bad op") }).collect();
+    let mut set = set;
+    set.sort();
+    perm_check(env, &set).map(|(a, b, _)| (a, b))
 }
